@@ -1,9 +1,17 @@
 (* s-expressions and conversions between transcript values and the extracted model's types *)
 type s = A of string | L of s list
 
-let rec to_string = function
-  | A a -> a
-  | L l -> "(" ^ String.concat " " (List.map to_string l) ^ ")"
+(* printing through a Buffer: linear and constant stack in the width of a list (Bdds of 100k nodes are
+   flat lists of 300k atoms) *)
+let to_string (x : s) : string =
+  let buf = Buffer.create 256 in
+  let rec go = function
+    | A a -> Buffer.add_string buf a
+    | L l ->
+      Buffer.add_char buf '(';
+      List.iteri (fun i y -> if i > 0 then Buffer.add_char buf ' '; go y) l;
+      Buffer.add_char buf ')' in
+  go x; Buffer.contents buf
 
 exception Bad of string
 
@@ -42,7 +50,7 @@ let rec int_of_pos = function XH -> 1 | XO p -> 2 * int_of_pos p | XI p -> 2 * i
 let int_of_n = function N0 -> 0 | Npos p -> int_of_pos p
 
 (* big decimal <-> N through lists of decimal digits (little endian) *)
-let n_of_decimal (str : string) : n =
+let n_of_decimal_big (str : string) : n =
   (* repeated halving of a decimal string *)
   let digits = Array.of_list (List.map (fun c -> Char.code c - 48) (List.init (String.length str) (String.get str))) in
   Array.iter (fun d -> if d < 0 || d > 9 then raise (Bad ("decimal " ^ str))) digits;
@@ -62,7 +70,16 @@ let n_of_decimal (str : string) : n =
       | Npos p, 0 -> Npos (XO p)
       | Npos p, _ -> Npos (XI p)) N0 !bits
 
-let decimal_of_n (x : n) : string =
+(* fast path for numbers that fit an OCaml int (at most 17 decimal digits / 56 bits): same function *)
+let n_of_decimal (str : string) : n =
+  let len = String.length str in
+  if len = 0 || len > 17 then n_of_decimal_big str else begin
+    let v = ref 0 in
+    String.iter (fun c -> let d = Char.code c - 48 in if d < 0 || d > 9 then raise (Bad ("decimal " ^ str)); v := !v * 10 + d) str;
+    n_of_int !v
+  end
+
+let decimal_of_n_big (x : n) : string =
   (* double-and-add on a decimal digit array, most significant bit first *)
   let rec bits_of_pos p acc = match p with XH -> 1 :: acc | XO q -> bits_of_pos q (0 :: acc) | XI q -> bits_of_pos q (1 :: acc) in
   match x with
@@ -75,6 +92,12 @@ let decimal_of_n (x : n) : string =
         digits := List.map (fun d -> let v = 2 * d + !carry in carry := v / 10; v mod 10) !digits;
         if !carry > 0 then digits := !digits @ [!carry]) bits;
     String.concat "" (List.rev_map string_of_int !digits)
+
+let decimal_of_n (x : n) : string =
+  let rec bits p k = if k > 56 then k else match p with XH -> k + 1 | XO q | XI q -> bits q (k + 1) in
+  match x with
+  | N0 -> "0"
+  | Npos p -> if bits p 0 <= 56 then string_of_int (int_of_pos p) else decimal_of_n_big x
 
 let atom = function A a -> a | L _ as x -> raise (Bad ("atom expected: " ^ to_string x))
 let items tag = function
@@ -90,17 +113,18 @@ let d_list f x = List.map f (items "L" x)
 let d_pair f g x = match items "P" x with [a; b] -> (f a, g b) | _ -> raise (Bad "pair")
 
 let d_bdd x : bdd =
-  let rec go = function
-    | [] -> []
-    | v :: l :: h :: r -> { nvar = d_n v; nlow = d_n l; nhigh = d_n h } :: go r
+  let rec go acc = function
+    | [] -> List.rev acc
+    | v :: l :: h :: r -> go ({ nvar = d_n v; nlow = d_n l; nhigh = d_n h } :: acc) r
     | _ -> raise (Bad "bdd triples") in
-  go (items "b" x)
+  go [] (items "b" x)
 
 let e_n x = A (decimal_of_n x)
 let e_int i = A (string_of_int i)
 let e_bool b = A (if b then "T" else "F")
 let e_opt f = function None -> A "N" | Some v -> L [A "S"; f v]
-let e_bdd (b : bdd) = L (A "b" :: List.concat_map (fun nd -> [e_n nd.nvar; e_n nd.nlow; e_n nd.nhigh]) b)
+let e_bdd (b : bdd) =
+  L (A "b" :: List.rev (List.fold_left (fun acc nd -> e_n nd.nhigh :: e_n nd.nlow :: e_n nd.nvar :: acc) [] b))
 let e_list f l = L (A "L" :: List.map f l)
 let e_pair f g (a, b) = L [A "P"; f a; g b]
 
